@@ -275,7 +275,9 @@ class G:
             rep = sum(w << (i * W) for i in range(n))
             self.add("wwIsRepW", W, hx(r.choice([rep, rep, a, rep ^ (1 << r.randrange(n * W)) if n else 0]), n, W), w if n else r.choice([0, w]))
             self.add("wwSizes", W, hx(a, n, W))
-            self.add("wwXor", W, self.pat3_fix("wwXor", n), hx(a, n, W), hx(b, n, W))
+            p = self.pat3()
+            x, y = self.ab_vals(p, a, b)
+            self.add("wwXor", W, p, hx(x, n, W), hx(y, n, W))
         for _ in range(count):
             n = self.nzlen()
             a = self.val(n)
@@ -856,6 +858,35 @@ def complete(ctx, exe, lines):
     return out
 
 
+def drop_hangs(ctx, exe, lines, budget=240):
+    """A library call that does not return is a result too: find such op lines (timeout + bisection),
+    return (lines without them, [hanging lines])."""
+    import subprocess
+    env = dict(os.environ, ASAN_OPTIONS="detect_leaks=0:abort_on_error=0:allocator_may_return_null=1")
+
+    def ok(chunk, tmo):
+        try:
+            subprocess.run([exe], input="\n".join(chunk) + "\n", capture_output=True, text=True, timeout=tmo, env=env)
+            return True
+        except subprocess.TimeoutExpired:
+            return False
+    if ok(lines, budget):
+        return lines, []
+    hangs, keep = [], []
+    step = 400
+    for i in range(0, len(lines), step):
+        chunk = lines[i:i + step]
+        if ok(chunk, 30):
+            keep += chunk
+            continue
+        for l in chunk:
+            if len(hangs) < 8 and not ok([l], 10):
+                hangs.append(l)
+            else:
+                keep.append(l)
+    return keep, hangs
+
+
 # ----------------------------------------------------------------------------- search oracle
 
 def oracle(op, c_out):
@@ -1155,6 +1186,10 @@ def run(ctx):
             if ctx.tier == "thorough" and W == 64:
                 streams[W][1].extend("u 16 %d" % x for x in range(65536))      # complete enumeration of the 16-bit helpers
         g, lines = streams[W]
+        lines, hangs = drop_hangs(ctx, exe, lines)
+        for h in hangs:
+            ctx.violation(key_of(h) + ":no-return", replay_text(cfg, h, "(does not return within 10 s)", "-", "the call does not terminate"), True,
+                          "[%s] %s : the library call does not return" % (cfg, h[:300]))
         lines = complete(ctx, exe, lines)
         mism, c_out, l_out = ctx.diff_run(exe, lines, cfg)
         total_mism += len(mism)
@@ -1232,6 +1267,11 @@ def replay(ctx, path):
         raw = [k for k, v in RAW.items() if v == t[0]][0]
         nin = {"zzExGCD": 2, "ppExGCD": 2, "zzAlmostInvMod": 2}[raw]
         op = complete(ctx, exe, [" ".join([raw] + t[1:2 + nin])])[0]
+    if drop_hangs(ctx, exe, [op], 20)[1]:
+        print("op   %s" % op)
+        print("impl does not return within 20 s")
+        print("property VIOLATED on the current tree: the call does not terminate")
+        return 1
     out, err, rc = ctx.run_lines(exe, [op])
     c = out[0] if out and rc == 0 else "CRASH(rc=%d): %s" % (rc, err.strip().split("\n")[-1][:200])
     why = oracle(op, c)
